@@ -35,7 +35,11 @@ def make_shards(tier, seed, prop):
     return out
 
 
-def build_case(shard, vi, seed):
+def ctors_for(kind):
+    return ["Sigma"] if kind == "nncontrol" else (["Sigma", "Lambda", "all"] if kind.startswith("identity") else ["Sigma", "Lambda", "all", "b_none"])
+
+
+def build_case(shard, vi, seed, ctor="Sigma", prep="fresh"):
     kind, Rc, Rx, Dx, Dy = (shard[k] for k in ("kind", "Rc", "Rx", "Dx", "Dy"))
     tag = (kind, Rc, Rx, Dx, Dy)
     diag = kind in ("diag", "identity_diag")
@@ -46,7 +50,27 @@ def build_case(shard, vi, seed):
     Sy = objs.spd_batch(Dy, Rc, vi, seed, tag + ("Sy",), diag=diag)
     Sx = objs.spd_batch(Dx, Rx, vi + 1, seed, tag + ("Sx",))
     mx = objs.vec_batch(Dx, Rx, vi, seed, tag + ("mx",))
-    cond, kw, (Me, be, Sye) = objs.mk_cond(kind, M, b, Sy)
+    if prep == "sliced" and kind != "nncontrol":
+        # the operands are reached from elsewhere: a larger batch sliced with NEGATIVE indices
+        M2 = np.concatenate([M[:1] * -0.5 + 1.0, M], axis=0)
+        b2 = np.concatenate([b[:1] + 3.0, b], axis=0)
+        Sy2 = np.concatenate([Sy[:1] * 2.0, Sy], axis=0)
+        big, kw, (Mb, bb, Syb) = objs.mk_cond(kind, M2, b2, Sy2, ctor=ctor)
+        idx = list(range(-Rc, 0))
+        cond = big.slice(jnp.array(idx))
+        Me, be, Sye = Mb[idx], bb[idx], Syb[idx]
+        Sx2 = np.concatenate([Sx[:1] * 1.5, Sx], axis=0)
+        mx2 = np.concatenate([mx[:1] - 2.0, mx], axis=0)
+        p_x = objs.mk_pdf("GaussianPDF", Sx2, mx2).slice(jnp.array(list(range(-Rx, 0))))
+        return cond, kw, p_x, (Me, be, Sye, mx, Sx)
+    if prep == "updated" and kind != "nncontrol":
+        # the conditional was built with another noise covariance and then updated in place
+        cond, kw, (Me, be, Sye) = objs.mk_cond(kind, M, b, Sy * 3.0 + (0 if diag else 0.0), ctor=ctor)
+        cond.update_Sigma(J(Sy))
+        p_x = objs.mk_pdf("GaussianPDF", Sx, mx)
+        p_x.integrate("xx'")  # and the prior has been queried before
+        return cond, kw, p_x, (Me, be, Sy, mx, Sx)
+    cond, kw, (Me, be, Sye) = objs.mk_cond(kind, M, b, Sy, ctor=ctor)
     p_x = objs.mk_pdf("GaussianPDF", Sx, mx)
     return cond, kw, p_x, (Me, be, Sye, mx, Sx)
 
@@ -62,11 +86,19 @@ def run(shard, ctx, which):
     kind, Rc, Rx, Dx, Dy = (shard[k] for k in ("kind", "Rc", "Rx", "Dx", "Dy"))
     R = Rc * Rx
     for vi in value_indices(tier):
+      for ctor in ctors_for(kind):
+        # the non-default constructor variants run on the first catalogue entry and the seed-generic one
+        if ctor != "Sigma" and vi not in (0, 100):
+            continue
         for N in ((2, 3) if tier == "thorough" else (2,)):
-            desc = dict(vi=vi, N=N)
+          for prep in (("fresh", "sliced", "updated") if (ctor == "Sigma" and vi in (0, 100) and kind != "nncontrol") else ("fresh",)):
+            desc = dict(vi=vi, N=N, ctor=ctor, prep=prep)
             if not ctx.case(desc):
                 continue
-            cond, kw, p_x, (M, b, Sy, mx, Sx) = build_case(shard, vi, seed)
+            with ctx.guard("prepare." + prep, dict(ctor=ctor, prep=prep)) as g:
+                cond, kw, p_x, (M, b, Sy, mx, Sx) = build_case(shard, vi, seed, ctor=ctor, prep=prep)
+            if not g.ok:
+                continue
             x = al.points(N, Dx, salt=vi)
             y = al.points(N, Dy, salt=vi + 3)
             if vi == 0 and N == 2:
